@@ -174,6 +174,9 @@ class LinesearchSolver(NonlinearSolver):
         method = options['bound_enforcement']
         lower = self._lower_bounds
         upper = self._upper_bounds
+        if lower is None and upper is None:
+            # _has_bounds can be stale (set by add_output, never cleared) when no output is bounded
+            return
 
         if options['print_bound_enforce']:
             _print_violations(system._outputs, lower, upper)
